@@ -22,9 +22,11 @@ import (
 	"io"
 	"math/rand"
 	"net"
+	"os"
 	"runtime"
 	"runtime/debug"
 	"strings"
+	"sync"
 	"time"
 
 	tls "github.com/refraction-networking/utls"
@@ -56,6 +58,49 @@ type driveOpts struct {
 	// re-measurement uses a copy of script with an empty trace (only sound for scripts whose hooks keep no state)
 	scriptFn  func() *tls.VerifServerScript
 	keepCache bool // re-measurements keep ccfg's ClientSessionCache (histories); otherwise each attempt gets an empty one
+	// writeFault: what the client's transport does with writes once the handshake is done: "" = normal, "fails" = every Write
+	// returns an error at once (peer gone), "blocks" = every Write blocks until the write deadline and then times out (peer
+	// stopped reading, send buffer full)
+	writeFault string
+}
+
+// faultConn wraps the client's transport; its write side can be switched to failing or blocking after the handshake.
+type faultConn struct {
+	net.Conn
+	mu   sync.Mutex
+	mode string
+	wdl  time.Time
+}
+
+func (f *faultConn) setMode(m string) { f.mu.Lock(); f.mode = m; f.mu.Unlock() }
+func (f *faultConn) SetDeadline(t time.Time) error {
+	f.mu.Lock()
+	f.wdl = t
+	f.mu.Unlock()
+	return f.Conn.SetDeadline(t)
+}
+func (f *faultConn) SetWriteDeadline(t time.Time) error {
+	f.mu.Lock()
+	f.wdl = t
+	f.mu.Unlock()
+	return f.Conn.SetWriteDeadline(t)
+}
+func (f *faultConn) Write(b []byte) (int, error) {
+	f.mu.Lock()
+	mode, wdl := f.mode, f.wdl
+	f.mu.Unlock()
+	switch mode {
+	case "fails":
+		return 0, &net.OpError{Op: "write", Net: "tcp", Err: errors.New("broken pipe (injected)")}
+	case "blocks":
+		if !wdl.IsZero() {
+			if d := time.Until(wdl); d > 0 {
+				time.Sleep(d)
+			}
+		}
+		return 0, &net.OpError{Op: "write", Net: "tcp", Err: os.ErrDeadlineExceeded}
+	}
+	return f.Conn.Write(b)
 }
 
 type driveResult struct {
@@ -162,8 +207,9 @@ func driveOnce(o driveOpts) *driveResult {
 		return res
 	}
 	defer raw.Close()
-	raw.SetDeadline(time.Now().Add(o.deadline))
-	uc := tls.UClient(raw, o.ccfg, o.id)
+	fc := &faultConn{Conn: raw}
+	fc.SetDeadline(time.Now().Add(o.deadline))
+	uc := tls.UClient(fc, o.ccfg, o.id)
 	if o.spec != nil {
 		if err := uc.ApplyPreset(o.spec); err != nil {
 			res.buildErr = err
@@ -195,6 +241,7 @@ func driveOnce(o driveOpts) *driveResult {
 		}()
 		res.hsErr = uc.Handshake()
 		if res.hsErr == nil {
+			fc.setMode(o.writeFault)
 			if o.writes {
 				uc.Write([]byte("ping-before-read"))
 			}
@@ -700,7 +747,7 @@ func postCases(c *vh.Ctx, pki *hs.PKI, parrots []*parrotInfo, live *int) {
 	}
 	hangs := 0
 	n := 0
-	oneCase := func(p *parrotInfo, vers uint16, m pm, mut string) {
+	oneCase := func(p *parrotInfo, vers uint16, m pm, mut string, fault string) {
 		if hangs >= 3 {
 			c.Count("skipped/post-handshake-after-3-hangs")
 			return
@@ -713,7 +760,13 @@ func postCases(c *vh.Ctx, pki *hs.PKI, parrots []*parrotInfo, live *int) {
 		}
 		scfg := pki.ServerConfig("h2", "http/1.1")
 		scfg.MaxVersion = vers
-		r := drive(driveOpts{id: p.ID, spec: specOf(p), ccfg: clientCfg(pki, p), scfg: scfg, script: &tls.VerifServerScript{}, writes: true,
+		dl := 3 * time.Second
+		if fault != "" {
+			kind += "/client-write-" + fault
+			dl = 800 * time.Millisecond
+		}
+		r := drive(driveOpts{id: p.ID, spec: specOf(p), ccfg: clientCfg(pki, p), scfg: scfg, script: &tls.VerifServerScript{}, writes: fault == "",
+			writeFault: fault, deadline: dl,
 			post: func(sc *tls.Conn) {
 				for i := 0; i < m.count; i++ {
 					if err := sc.VerifC34WriteHandshakeRecord(msg); err != nil {
@@ -731,7 +784,8 @@ func postCases(c *vh.Ctx, pki *hs.PKI, parrots []*parrotInfo, live *int) {
 			hangs++
 		}
 		judgeKey(c, r, "post-handshake/"+kind+"/"+p.Name, "post-handshake/"+kind, map[string]any{"parrot": p.Name, "scenario": "post-handshake", "version": vers,
-			"message": m.name, "mutation": mut, "count": m.count, "sent": hexScript([][]byte{msg}), "seed": c.Seed})
+			"message": m.name, "mutation": mut, "count": m.count, "client_transport_writes": map[string]string{"": "normal", "fails": "fail once the handshake is done", "blocks": "block until the write deadline once the handshake is done"}[fault],
+			"sent": hexScript([][]byte{msg}), "seed": c.Seed})
 	}
 	muts := append([]string{"none", "none"}, mutKinds...)
 	for pi, p := range parrots {
@@ -746,19 +800,41 @@ func postCases(c *vh.Ctx, pki *hs.PKI, parrots []*parrotInfo, live *int) {
 				if mut == "reorder" || mut == "drop" {
 					mut = "bitflip"
 				}
-				oneCase(p, tls.VersionTLS13, post13[(pi+k*5)%len(post13)], mut)
+				oneCase(p, tls.VersionTLS13, post13[(pi+k*5)%len(post13)], mut, "")
 			}
 		}
 		if p.usable12 {
 			// every client meets a plain HelloRequest (whether it renegotiates depends on its own RenegotiationInfoExtension)
-			oneCase(p, tls.VersionTLS12, post12[0], "none")
+			oneCase(p, tls.VersionTLS12, post12[0], "none", "")
 			for k := 0; k < reps-1; k++ {
 				mut := muts[n%len(muts)]
 				n++
 				if mut == "reorder" || mut == "drop" {
 					mut = "bitflip"
 				}
-				oneCase(p, tls.VersionTLS12, post12[1+(pi+k*3)%(len(post12)-1)], mut)
+				oneCase(p, tls.VersionTLS12, post12[1+(pi+k*3)%(len(post12)-1)], mut, "")
+			}
+		}
+	}
+	// the same messages while the CLIENT's own writes fail or block once the handshake is done (the server asked for a reply -
+	// KeyUpdate(update_requested), HelloRequest -> renegotiation ClientHello, anything answered with an alert - and then went away
+	// or stopped reading). Only Read is called; it has to return.
+	write13 := []pm{post13[4], post13[5], post13[8], post13[10], post13[6], post13[0]} // KeyUpdate x1 / x40, stray EncryptedExtensions, Finished, HelloRequest, NewSessionTicket
+	write12 := []pm{post12[0], post12[1], post12[5], post12[9], post12[3]}            // HelloRequest x1 / x5, KeyUpdate, ServerHelloDone, NewSessionTicket
+	for pi, p := range parrots {
+		faults := []string{"fails"}
+		if pi%6 == 0 || c.Tier != "quick" {
+			faults = append(faults, "blocks")
+		}
+		for fi, fault := range faults {
+			if p.usable13 {
+				oneCase(p, tls.VersionTLS13, write13[0], "none", fault) // every client: KeyUpdate(update_requested)
+				if c.Tier != "quick" || fi == 0 {
+					oneCase(p, tls.VersionTLS13, write13[1+(pi+fi)%(len(write13)-1)], "none", fault)
+				}
+			}
+			if p.usable12 {
+				oneCase(p, tls.VersionTLS12, write12[(pi+fi)%len(write12)], "none", fault)
 			}
 		}
 	}
